@@ -266,3 +266,7 @@ impl<'a, T: Queryable> vstd::std_specs::convert::FromSpecImpl<Pointer<'a, T>> fo
     open spec fn obeys_from_spec() -> bool { true }
     open spec fn from_spec(p: Pointer<'a, T>) -> Self { QueryRef(p.inner, p.path) }
 }
+
+// E3: error values built with format! (message text dropped)
+#[verifier::external_body]
+pub fn vf_error() -> (e: JsonPathError) { unimplemented!() }
